@@ -9,7 +9,7 @@ ID = "C04"
 RULE = (
     "Hypothesis draws documents of shapes and paths (open, closed, multi-subpath, curved, lines) with stroke, "
     "stroke-width (>= 2 user units), linecap butt/round/square, linejoin miter/round/bevel, miterlimit 1..10, dash arrays "
-    "of odd and even length with offsets (negative, beyond the period), stroke-opacity, fill none/solid/translucent, the "
+    "of odd and even length with offsets (negative, beyond the period), dash numbers spelt with exponents or a plus sign, twins (a stroked leaf repeated with identical geometry and only dashoffset / linecap / width / paint altered), stroke-opacity, fill none/solid/translucent, the "
     "stroke properties set on the shape or inherited from groups/use via attribute or style, under ancestor transform "
     "lists incl. non-uniform scale and skew. Oracle: three-valued stroke membership computed in the shape's own user "
     "space (definitely inside: within half width minus tau of a segment's perpendicular strip and, if dashed, inside an "
